@@ -10,7 +10,7 @@ from kern2 import fr_tok
 from remesh import Mesh
 
 SPEC = {
-    "lean_modules": ["Honeycomb.Props.C15", "Honeycomb.Props.C15b", "Honeycomb.Props.C15c", "Honeycomb.Props.C15d", "Honeycomb.Props.C15Gen", "Honeycomb.Props.C15GenB"],
+    "lean_modules": ["Honeycomb.Props.C15", "Honeycomb.Props.C15b", "Honeycomb.Props.C15c", "Honeycomb.Props.C15d", "Honeycomb.Props.C15Gen", "Honeycomb.Props.C15GenB", "Honeycomb.Props.C15GenC"],
     "gen": ["anchors", "remesh", "collapse"],
     "required_theorems": [
         # Props/C15Gen.lean: the translated swap_edge / cut_outer_edge / cut_inner_edge and the sew::<I> dispatch ARE the model's
@@ -18,6 +18,8 @@ SPEC = {
         "C15_gen_cutOuter_preserves_WF", "C15_gen_cutInner_preserves_WF",
         # Props/C15GenB.lean: the guard and the half-cell helpers of collapse.rs
         "C15_gen_collapse_halfMid", "C15_gen_collapse_halfBase", "C15_gen_collapse_edgeToMidpoint", "C15_gen_collapse_choice", "C15_gen_collapse_isCollapsible", "C15_gen_collapse_choice_total",
+        # the rest of collapse.rs and the orientation post-check of utils/routines.rs: the WHOLE collapse_edge on translated code
+        "C15_gen_collapse_edgeToBase", "C15_gen_collapse_edge", "C15_gen_collapse_orient", "C15_gen_collapse_edge_full", "C15_gen_collapse_no_flat_triangle",
         
         "C15_swap_preserves_WF", "C15_cutOuter_preserves_WF", "C15_cutInner_preserves_WF", "C15_collapse_preserves_WF",
         "C15_collapseA_refines", "C15_error_leaves_map_unchanged", "C15_swap_guards", "C15_collapse_guards",
